@@ -196,7 +196,7 @@ func (m *menv) exec(stmts []ast.Stmt, cond []*Term, cur string) []mout {
 // obligations for Bst.searchNode in machine arithmetic
 func (e *Engine) bstCompareObligations() (rep *FuncReport) {
 	key := "helper.Bst.searchNode"
-	rep = &FuncReport{Key: key, Tags: []string{"C17"}}
+	rep = &FuncReport{Key: key, Tags: bstProps}
 	fi := e.w.Funcs[key]
 	if fi == nil {
 		rep.Status = "out-of-reach"
@@ -260,7 +260,7 @@ func (e *Engine) bstCompareObligations() (rep *FuncReport) {
 			gt = &Term{Op: "bvsgt", Args: []*Term{a, b}, Sort: SBool}
 		}
 		add := func(name string, got []*Term, want *Term) {
-			rep.Obls = append(rep.Obls, &Obligation{Name: fmt.Sprintf("%s/compare/%s/%s", key, mt.name, name), Func: key, Tags: []string{"C17"}, Hyps: hyps,
+			rep.Obls = append(rep.Obls, &Obligation{Name: fmt.Sprintf("%s/compare/%s/%s", key, mt.name, name), Func: key, Tags: bstProps, Hyps: hyps,
 				Goal: &Term{Op: "=", Args: []*Term{mkOr(got...), want}, Sort: SBool}, Kind: "machine", Where: e.src(loop)})
 		}
 		add("found-iff-equal", found, eq)
@@ -358,4 +358,16 @@ func TestZZBstReplay(t *testing.T) {
 `, tname, nv, v)
 	out, failed := e.runOverlayTest("helper", "zz_bst_replay_verif_test.go", src, "^TestZZBstReplay$")
 	return map[string]interface{}{"type": tname, "node_value": nv, "value": v, "history": fmt.Sprintf("NewBst[%s](); Insert(%d); Insert(%d); Contains(%d); Contains(%d); Remove(%d)", tname, nv, v, v, nv, v), "observed": truncate(out, 800)}, failed
+}
+
+// properties that rest on the tree: C17 itself, and the moving maximum / minimum behind C01 (values) and C15 (ranges)
+var bstProps = []string{"C17", "C15", "C01"}
+
+func isBstProp(p string) bool {
+	for _, x := range bstProps {
+		if x == p {
+			return true
+		}
+	}
+	return false
 }
